@@ -19,7 +19,7 @@ Proof. intros. apply run_ginv. apply init_ginv. Qed.
 
 Lemma step_now : forall s o, now (fst (step s o)) = match o with OAdv d => now s + Z.of_N d | _ => now s end.
 Proof.
-  intros s o. destruct o as [d|c|n w f|n cbp mbf|face n cbp mbf nonce life sent|n w f tok| | |u]; simpl; try reflexivity.
+  intros s o. destruct o as [d|c|n w f|n cbp mbf|face n cbp mbf nonce life sent|n w f tok| | |u|sid sn]; simpl; try reflexivity.
   - apply (dsame_insert_data s n w f).
   - pose proof (dsame_find_cs s n cbp mbf) as [_ [_ [_ H]]]. destruct (find_cs s n cbp mbf). exact H.
   - pose proof (drel_process_interest s face n cbp mbf nonce life sent) as [_ [H _]].
@@ -28,6 +28,7 @@ Proof.
   - apply (drel_pit_update s).
   - destruct (dnl_sweep_fields s) as [_ [_ [H _]]]. exact H.
   - unfold mgmt_cap. destruct (max_int <? u)%N; reflexivity.
+  - unfold stale_remove. destruct (mem_N sid (tokmap s)); [reflexivity|]. apply (dsame_remove_interest s (mkpit sid sn false false [] [] 0 false false)).
 Qed.
 
 Lemma dl_step_le : forall s bd o L, 0 <= L -> life_ok L o -> (forall k, bd k <= now s + L) ->
@@ -338,7 +339,7 @@ Proof.
   induction ops as [|o t [L [HL HF]]]; [exists 0; split; [lia|constructor]|].
   assert (Hmono : forall L', L <= L' -> lifetimes_within L' t).
   { intros L' Hle. eapply Forall_impl; [|exact HF]. intros x Hx. destruct x; simpl in *; try exact Logic.I. lia. }
-  destruct o as [d|c|n w f|n cbp mbf|face n cbp mbf nonce life sent|n w f tok| | |u];
+  destruct o as [d|c|n w f|n cbp mbf|face n cbp mbf nonce life sent|n w f tok| | |u|sid sn];
     try (exists L; split; [exact HL|constructor; [exact Logic.I|exact HF]]).
   exists (Z.max L (lifetime_of life)). split; [lia|]. constructor; [simpl; lia|apply Hmono; lia].
 Qed.
